@@ -25,8 +25,8 @@ def handle (toks : List String) : String :=
       match up.strKeys.find? (·.1 = "version") with
       | none => "model-undefined"
       | some (_, _, rule) =>
-        if v = "absent" then hex (applyRule rule .absent)
-        else if v.startsWith "s:" then
+        if v = "absent" ∨ v = "null" then hex (applyRule rule .absent)   -- null decodes to a nil interface, like an absent key
+        else if v.startsWith "s:" ∨ v.startsWith "e:" then
           match unhex (v.drop 2).toString with
           | some s => hex (applyRule rule (.str s))
           | none => "bad-op"
